@@ -207,6 +207,9 @@ def evalAssign (facts : List String) (r : Regs) (args : List String) : Option Va
   | ["add", e, a] => do
     let e ← r.env e; let a ← r.env a
     pure (.ofRes (addAssertionEnvelope H e a))
+  | ["add_many", e, xs] => do
+    let e ← r.env e; let xs ← envs r xs
+    pure (.ofRes (addAll H e xs))
   | ["remove", e, a] => do
     let e ← r.env e; let a ← r.env a
     pure (.ofRes (removeAssertion H e a))
